@@ -606,4 +606,8 @@ func runC02(c *Ctx) {
 		p.Method(pkgInmem, "ResourceCollection", "Create"),
 		p.Method(pkgInmem, "ResourceCollection", "Update"),
 		p.Method(pkgInmem, "ResourceCollection", "Destroy"))
+
+	// ---------- R02.9 the gRPC client never re-subscribes from nowhere
+	c.Import(runC13, "R13.2", "", "R02.9", "E1", "client watch adapter: a re-Watch after a stream failure happens only once a bookmark was recorded — otherwise the new stream would start at the server's current position and silently skip the events in between", 1)
+
 }
